@@ -143,7 +143,7 @@ def run(ctx):
         rejected = str(ex)
     if not rejected:
         tv = 1
-    if (mism or rejected) and not other_viol:
+    if (mism or rejected) and not ctx.violations:
         # the specification does not describe what the code does, but no property predicate failed: not a violation
         raise vlib.Inconclusive("spec/code disagreement without a failed predicate: %d outcome mismatches, trace %s\n%s\n%s"
                                 % (len(mism), "rejected" if rejected else "accepted", json.dumps(mism[:3])[:2500], (rejected or "")[-1500:]))
